@@ -9,6 +9,7 @@
 import Proofs.Lemmas.HttpClient
 import Proofs.Lemmas.InprocAll
 import Proofs.Lemmas.HttpServerStream
+import Proofs.Lemmas.HttpCompose
 
 namespace InprocStream
 
@@ -181,3 +182,66 @@ theorem C01_http_server_request_prefix (req : List ReqItem) (acts : List Act) (s
   exact List.prefix_append _ _
 
 end HttpServerStream
+
+namespace HttpCompose
+open HttpClientStream (Act St finalOf)
+
+/-- **HTTP response streams end to end, at every moment.** Take any handler program on the server
+    (model HttpServerStream) and any execution of the client (model HttpClientStream: every
+    interleaving of reader goroutine, RecvMsg, SendMsg, cancellation) in which the transport has so
+    far delivered a prefix of what the server wrote. Then what the client's RecvMsg calls have
+    returned is a prefix of the messages of the handler's successful SendMsg calls, in order. -/
+theorem C01_http_end_to_end_prefix (cs : Bool) (req : List HttpServerStream.ReqItem)
+    (hacts : List HttpServerStream.Act) (ss : HttpServerStream.St) (rs : List InprocStream.Res)
+    (hsrv : HttpServerStream.run (HttpServerStream.init cs req) hacts = some (ss, rs))
+    (cacts : List Act) (sc : St) (hcli : HttpClientStream.run (HttpClientStream.init true) cacts = some sc)
+    (hfeed : itemsIn cacts <+: itemsOf ss.wire) :
+    sc.delivered <+: okSends hacts rs := by
+  have h1 := HttpClientStream.C01_http_response_prefix sc ⟨cacts, hcli⟩
+  have h2 := run_supplied cacts _ sc hcli
+  simp only [HttpClientStream.init, List.nil_append] at h2
+  have h3 := dataOK_prefix _ _ hfeed
+  rw [dataOK_itemsOf] at h3
+  have h4 := run_msgs hacts _ ss rs hsrv
+  simp only [HttpServerStream.init, msgsOfWire, List.nil_append] at h4
+  rw [h2] at h1
+  rw [← h4]
+  exact h1.trans h3
+
+/-- **…and at a clean end.** If, with the connection intact, the client reports io.EOF, then the
+    transport had delivered the whole reply, the handler had returned nil, and the client has received
+    every message the handler sent — no more, no fewer, in order. -/
+theorem C01_http_end_to_end_complete (cs : Bool) (req : List HttpServerStream.ReqItem)
+    (hacts : List HttpServerStream.Act) (s1 : HttpServerStream.St) (rs : List InprocStream.Res)
+    (hsrv : HttpServerStream.run (HttpServerStream.init cs req) hacts = some (s1, rs))
+    (e : Option InprocStream.HErr) (s2 : HttpServerStream.St) (r : InprocStream.Res)
+    (hret : HttpServerStream.step s1 (.ret e) = some (s2, r)) (hw : s2.writeFailed = false) (hc : s2.connBroken = false)
+    (cacts : List Act) (sc : St) (hcli : HttpClientStream.run (HttpClientStream.init true) cacts = some sc)
+    (hfeed : itemsIn cacts <+: itemsOf s2.wire) (hd : sc.done = true) (hf : finalOf sc = .eof) :
+    sc.delivered = okSends hacts rs ∧ e = none := by
+  obtain ⟨hdel, hsaw⟩ := HttpClientStream.C01_http_response_complete sc ⟨cacts, hcli⟩ hd hf
+  have hsup := run_supplied cacts _ sc hcli
+  simp only [HttpClientStream.init, List.nil_append] at hsup
+  have htr := (run_trailer cacts _ sc hcli).2 hsaw
+  simp only [HttpClientStream.init] at htr
+  have htr' : HttpClientStream.Item.trailer 0 true ∈ itemsIn cacts := by
+    rcases htr with h | h | h
+    · simp at h
+    · simp at h
+    · exact h
+  obtain ⟨fs, hfs, hwire⟩ := HttpServerStream.reply_complete cs req hacts s1 rs e s2 r hsrv hret hw hc
+  obtain ⟨hitems, hmsgs⟩ := itemsOf_complete (HttpServerStream.okHdr hacts rs) fs (HttpServerStream.trailerCode e) (HttpServerStream.trailersSet hacts) hfs
+  rw [hwire, hitems] at hfeed
+  obtain ⟨hall, hcode⟩ := prefix_with_trailer _ _ 0 _ hfeed htr'
+  have he : e = none := HttpServerStream.trailerCode_zero e hcode.symm
+  refine ⟨?_, he⟩
+  rw [hdel, hsup, hall, dataOK_datas]
+  -- the data frames of the reply are the handler's successful sends
+  have h1 := run_msgs hacts _ s1 rs hsrv
+  simp only [HttpServerStream.init, msgsOfWire, List.nil_append] at h1
+  have h2 := step_msgs s1 (.ret e) s2 r hret
+  simp only [okSends, List.append_nil] at h2
+  rw [hwire, hmsgs] at h2
+  rw [h2, h1]
+
+end HttpCompose
